@@ -132,6 +132,7 @@ class C10:
         scorer = {"kind": "am", "seed": rc.randrange(1 << 30)} if use_am else \
             {"kind": "scripted", "mode": rc.choice(MODES), "seed": rc.randrange(1 << 30)}
         episodes = []
+        layout_draw = rc.random()
         for _ in range(rc.randint(3, 5)):
             dt = rc.choice(DECODE)
             if dt.startswith("multistart") and name not in MULTISTART_ENVS:
@@ -145,6 +146,8 @@ class C10:
                   "evaluate": bool(dt in ("greedy", "sampling", "multisample") and rc.random() < 0.4
                                and not (use_am and dt == "multisample"))}
             episodes.append(ep)
+        if not use_am and layout_draw < 0.25:
+            scorer["layout"] = "transposed"  # the decoder hands its scores over as a non-contiguous view
         return {"cfg": cfg, "instances": [E.enc_row(r) for r in rows], "scorer": scorer, "episodes": episodes}
 
     @staticmethod
@@ -190,6 +193,9 @@ class C10:
         else:
             policy = make_scripted_policy(name, sc["mode"], sc["seed"])
             scope = f"scripted-{sc['mode']}/{name}"
+            if sc.get("layout") == "transposed":
+                policy.decoder.mem_layout = "transposed"
+                run.probe("noncontiguous_logits")
         run.outcomes = []
         run.stats[f"runs:{scope}"] += 1
         for ei, ep in enumerate(plan["episodes"]):
